@@ -269,6 +269,7 @@ def eval_case(desc, ctx):
 # ---- generators ----------------------------------------------------------------------------------
 def rand_ops(rng, length):
     ops, n, alive = [], 0, []
+    npid = 0
     for _ in range(length):
         r = rng.random()
         if n == 0 or r < 0.3:
@@ -297,6 +298,7 @@ def rand_ops(rng, length):
                     a = args.get("alive", 1)
                     alive.append(bool((a[j] if len(a) > 1 else a[0]) if isinstance(a, list) else a))
                 n += m
+                npid += m
         elif r < 0.34:
             ops.append(["append_invalid", rng.choice(["pid", "foo", "x"])])
         elif r < 0.52:
@@ -312,10 +314,10 @@ def rand_ops(rng, length):
         elif r < 0.88:
             dst, src = rng.choice([("X", "Y"), ("age", "temp"), ("temp", "Z"), ("Y", "X"), ("temp", "age")])
             ops.append(["copy", dst, src])
-        elif r < 0.96:
+        elif r < 0.94:
             ops.append(["poke", rng.choice(["X", "Y", "Z", "age", "temp", "stage"]), [rng.random() < 0.5 for _ in range(n)], rng.randint(0, 99)])
-        else:
-            pass  # particle variable assignment needs npid; skipped in the random stream
+        elif npid > 0:  # a particle variable is assigned as a whole: one value per particle released so far
+            ops.append(["setp", rng.choice(["weight", "origin"]), [rng.randint(0, 99) for _ in range(npid)]])
     return ops
 
 
@@ -369,6 +371,17 @@ def gen_cases(ctx):
             out.append({"k": "ops", "gen": f"exhaustive-{L}", "ops": expand(seq), "obs": ["dict", "attr", "item"][len(out) % 3]})
     for i in range(nrand):
         out.append({"k": "ops", "gen": "random", "ops": rand_ops(rng, rng.choice(lens)), "obs": ["dict", "attr", "item"][i % 3]})
+    # fixed: whole-array assignment of particle variables while the number of living particles differs from the number
+    # released (one released and gone; three released, two left), followed by further releases
+    for i, ops in enumerate([
+        [["append", {"X": 1, "Y": 2, "Z": 3, "weight": 5}], ["kill", [True]], ["compactify"], ["setp", "weight", [42]],
+         ["append", {"X": [4, 5], "Y": 6, "Z": 7, "weight": [8, 9]}], ["setp", "origin", [1, 2, 3]]],
+        [["append", {"X": [1, 2, 3], "Y": 2, "Z": 3, "weight": [5, 6, 7]}], ["kill", [True, False, True]], ["compactify"],
+         ["setp", "weight", [11, 12, 13]], ["set", "X", [9]], ["append", {"X": 4, "Y": 6, "Z": 7}], ["setp", "origin", [1, 2, 3, 4]]],
+        [["append", {"X": 1, "Y": 2, "Z": 3}], ["setp", "weight", [42]], ["set", "age", [3]], ["kill", [True]], ["setp", "origin", [7]],
+         ["compactify"], ["setp", "origin", [8]], ["append", {"X": 1, "Y": 2, "Z": 3, "origin": 4}]],
+    ]):
+        out.append({"k": "ops", "gen": "fixed-setp", "ops": ops, "obs": ["dict", "attr", "item"][i % 3]})
     import c06
 
     for d in c06.gen_cases(ctx)[: (25 if ctx.quick else 200)]:
